@@ -237,6 +237,12 @@ WBXML_DECLARE(WB_BOOL) wbxml_buffer_shrink_blanks(WBXMLBuffer *buff);
 WBXML_DECLARE(WB_BOOL) wbxml_buffer_strip_blanks(WBXMLBuffer *buff);
 
 /**
+ * @brief Remove all whitespaces of a dynamic Buffer
+ * @param buff The Buffer
+ */
+WBXML_DECLARE(void) wbxml_buffer_no_spaces(WBXMLBuffer *buff);
+
+/**
  * @brief Compare two Buffers
  * @param buff1
  * @param buff2
